@@ -17,7 +17,8 @@ RULE = ("0-5 parameters with arbitrary str names (empty, unicode); values: scala
         "build() is compared with an independent recursive nested-loop product (first-declared slowest, strings and scalars as "
         "singletons): same length, same dict per index (names, values == and same type); two builds give equal lists of "
         "distinct dict objects; mutating a returned dict changes neither the next build nor the caller-held value objects. "
-        "Non-trivial: >= 2 parameters with >= 2 values each at some build. Distinct = digest of the case.")
+        "Non-trivial: >= 2 parameters with >= 2 values each at some build. Distinct = digest of the case."
+        " Added in rounds 19-24: re-iterable collections that are not sequences (__iter__ only); an operation 'use' runs a serial grid_search and a batch_run over the list between builds.")
 ASSUMPTIONS = ["one-shot iterators, dicts, sets and bytes are outside the stated domain and not generated"]
 
 _OBJ = [object() for _ in range(3)]
